@@ -149,25 +149,43 @@ def run_transducer(init, table, s):
     return st, out
 
 
-def literal_chars(f, fname):
-    """every char / 1-char str literal occurring in a function (the alphabet its behaviour can depend on)"""
+def literal_chars(f, fname, depth=2, seen=None):
+    """every character the behaviour of a function can depend on: char / str / byte / byte-string literals (expressions
+    and patterns), integer literals that can be code points (a function that compares `c as u32` with 0x5C, or looks `c`
+    up in a table), in the function, in the named constants it mentions and in the crate functions it calls"""
+    seen = seen if seen is not None else set()
+    if fname in seen or fname not in f.fns or f.fns[fname].get("hir") is None:
+        return set()
+    seen.add(fname)
     out = set()
-    for n in walk(f.fn(fname)["hir"]):
-        if n.get("k") == "lit" and n["lit"]["t"] in ("char", "str"):
-            for c in n["lit"]["v"]:
-                out.add(c)
-        if n.get("k") == "lit" and n["lit"]["t"] == "bytes":
-            pass
-        if n.get("k") in ("lit",) and False:
-            pass
+    body = f.fns[fname]["hir"]
+
+    def add_lit(l):
+        if not isinstance(l, dict):
+            return
+        t, v = l.get("t"), l.get("v")
+        if t in ("char", "str"):
+            out.update(str(v))
+        elif t == "byte" and isinstance(v, int) and 0 <= v < 256:
+            out.add(chr(v))
+        elif t == "bytes" and isinstance(v, list):
+            out.update(chr(b) for b in v if isinstance(b, int) and 0 <= b < 128)
+        elif t == "int" and isinstance(v, int) and 0 <= v < 0x110000 and not (0xD800 <= v <= 0xDFFF):
+            out.add(chr(v))
+            if v > 0:
+                out.add(chr(v - 1))         # `code < 0x80`: both sides of a boundary
+    for n in walk(body):
         if n.get("k") == "lit":
-            continue
-    # literals in patterns
-    for n in walk(f.fn(fname)["hir"]):
-        l = n.get("lit")
-        if isinstance(l, dict) and l.get("t") in ("char", "str"):
-            for c in str(l["v"]):
-                out.add(c)
+            add_lit(n.get("lit"))
+        for key in ("lit", "lo", "hi"):
+            if isinstance(n.get(key), dict) and n.get("k") != "lit":
+                add_lit(n[key])
+        if depth > 0 and n.get("k") == "path" and "Const" in (n.get("dk") or "") and n.get("def") in f.fns:
+            out |= literal_chars(f, n["def"], depth - 1, seen)
+        if depth > 0 and n.get("k") in ("call", "mcall"):
+            for d in (n.get("callee"), H.callee(n)):
+                if d and d in f.fns and d.startswith("crate::"):
+                    out |= literal_chars(f, d, depth - 1, seen)
     return out
 
 
